@@ -935,3 +935,80 @@ Proof.
   split; [reflexivity|].
   vm_compute in E. inversion E; subst. vm_compute. reflexivity.
 Qed.
+
+(** ------------------------------------------------------------------ packaged statements cited by Props/C17.v *)
+Lemma phases_only_advance s ops ph ph' : Inv s ->
+  view_phase s = Ok ph -> view_phase (run s ops) = Ok ph' ->
+  phase_ix ph <= phase_ix ph' /\ p_block s <= p_block (run s ops) /\ p_cfg (run s ops) = p_cfg s.
+Proof.
+  intros HI H1 H2. split; [eapply run_phase_mono; eauto|].
+  destruct (run_inv ops s HI) as (_ & C & B). split; assumption.
+Qed.
+
+Lemma gates s : wf_cfg (p_cfg s) ->
+  (forall c tok amt s' o, ep_deposit s c tok amt = Ok (s', o) ->
+     c_start (p_cfg s) <= p_block s < b_lin_end (p_cfg s)) /\
+  (forall c n amt s' o, ep_withdraw s c n amt = Ok (s', o) ->
+     c_start (p_cfg s) <= p_block s < b_end (p_cfg s)) /\
+  (forall c n amt s' o, ep_redeem s c n amt = Ok (s', o) ->
+     b_end (p_cfg s) <= p_block s).
+Proof.
+  intros W. split; [|split]; intros.
+  - eapply deposit_only_in_phase; eauto.
+  - eapply withdraw_only_in_phase; eauto.
+  - eapply redeem_only_in_phase; eauto.
+Qed.
+
+Lemma penalty_linear c b pct : wf_cfg c -> get_current_phase c b = Ok (PhLinear pct) ->
+  b_nl_end c <= b < b_lin_end c /\
+  (exists inc, pct = c_pmin c + inc /\
+     (c_dl c <= 1 -> inc = 0) /\
+     (1 < c_dl c -> floor_of inc ((c_pmax c - c_pmin c) * (b - b_nl_end c)) (c_dl c - 1))) /\
+  c_pmin c <= pct <= c_pmax c.
+Proof.
+  intros W H. destruct (phase_char c b W) as (q & Hq & D).
+  rewrite H in Hq. inversion Hq; subst q. exact D.
+Qed.
+
+Lemma penalty_linear_shape c : wf_cfg c -> 0 < c_dl c ->
+  get_current_phase c (b_nl_end c) = Ok (PhLinear (c_pmin c)) /\
+  (1 < c_dl c -> get_current_phase c (b_lin_end c - 1) = Ok (PhLinear (c_pmax c))) /\
+  (forall b b' p p', b <= b' -> get_current_phase c b = Ok (PhLinear p) ->
+     get_current_phase c b' = Ok (PhLinear p') -> p <= p').
+Proof.
+  intros W Hd. destruct (linear_pct_endpoints c W Hd) as [A B].
+  split; [exact A|]. split; [exact B|]. intros. eapply linear_pct_mono; eauto.
+Qed.
+
+Lemma tracked_inv s : Inv s ->
+  (p_block s < b_end (p_cfg s) ->
+     p_lb s = p_rl s /\ p_ab s = p_ra s /\ p_s1 s = asum (p_h1 s) /\ p_s2 s = asum (p_h2 s)) /\
+  0 <= p_rl s <= p_lb s /\ 0 <= p_ra s <= p_ab s /\
+  asum (p_h1 s) <= p_s1 s /\ asum (p_h2 s) <= p_s2 s.
+Proof.
+  intros HI. split; [apply tracked_eq; exact HI|].
+  destruct (i_nn _ HI) as (N1 & N2 & N3 & N4 & _). destruct (i_re _ HI).
+  pose proof (i_c1 _ HI). pose proof (i_c2 _ HI). repeat split; assumption.
+Qed.
+
+Lemma frozen_in_redeem s : wf_cfg (p_cfg s) -> b_end (p_cfg s) <= p_block s ->
+  (forall c tok amt, is_ok (ep_deposit s c tok amt) = false) /\
+  (forall c n amt, is_ok (ep_withdraw s c n amt) = false).
+Proof.
+  intros W Hb. split; intros.
+  - destruct (ep_deposit s c tok amt) as [[s' o]|] eqn:E; [|reflexivity].
+    pose proof (deposit_only_in_phase _ _ _ _ _ _ W E). pose proof (w_df _ W). unfold b_end in *. lia.
+  - destruct (ep_withdraw s c n amt) as [[s' o]|] eqn:E; [|reflexivity].
+    pose proof (withdraw_only_in_phase _ _ _ _ _ _ W E). lia.
+Qed.
+
+Lemma price_precision cur decimals minp start dn dl df pmin pmax pfix s0 ops :
+  init_pd cur decimals minp start dn dl df pmin pmax pfix = Ok s0 ->
+  c_prec (p_cfg (run s0 ops)) = 10 ^ decimals /\ 0 <= decimals <= PD_MAX_TOKEN_DECIMALS.
+Proof.
+  intros H. destruct (init_inv _ _ _ _ _ _ _ _ _ _ _ H) as (HI & _ & _ & _ & _ & P & D).
+  destruct (run_inv ops s0 HI) as (_ & C & _). rewrite C. split; assumption.
+Qed.
+
+Lemma step_preserves s op s' o : Inv s -> step s op = Ok (s', o) -> Inv s'.
+Proof. intros HI H. exact (proj1 (step_inv s op s' o HI H)). Qed.
